@@ -88,6 +88,18 @@ func call(op string, f func() error) (res callResult) {
 
 // time bound for one decode call: linear in the input size with a generous constant, so that
 // only super-linear behaviour or a stall trips it even on a loaded machine.
+// sizeBound: the decoded message is at most linear in the input. The largest legitimate
+// amplification is a decimal at the exponent limit ("1e4096", 6 bytes of input, stores 4097 digits:
+// under 700x), so 1024x plus a constant holds for every accepted input while a decimal whose
+// exponent escaped the maxDecimalExponent guard (megabytes from ten bytes) is far outside.
+func sizeBound(n int) int { return 1024*n + 8192 }
+
+func amplification(h *vh.H, op string, m protoreflect.Message, n int) {
+	if sz := proto.Size(m.Interface()); sz > sizeBound(n) {
+		h.Fail("c06-amplification", op, fmt.Sprintf("%d bytes of input decoded into a message of %d bytes", n, sz))
+	}
+}
+
 func timeBound(n int) time.Duration {
 	// measured: ~0.3 µs/byte for accepted and (since 69f067c) rejected documents; 5 µs/byte plus a
 	// constant leaves more than 10x head room for a loaded machine, while the quadratic error path
@@ -449,6 +461,7 @@ func (im *impl) execDec(h *vh.H, op string, nodes []*node) string {
 	}
 	h.Count("dec.ok")
 	h.Nontrivial("dec " + rootName + " " + nodes[4].atom)
+	amplification(h, op, m, len(doc))
 	if !root.broken {
 		im.exactOracle(h, op, ts, md, root, mode, doc, m)
 	}
@@ -691,6 +704,7 @@ func (im *impl) execQuery(h *vh.H, op string, nodes []*node) string {
 	}
 	h.Count("query.ok")
 	h.Nontrivial("query " + rootName + " " + sexpString(nodes[4]))
+	amplification(h, op, m, total)
 	im.queryOracle(h, op, ts, md, mode, meta, m, nil)
 	return "ok " + dumpMsgOut(ts, m)
 }
